@@ -62,6 +62,10 @@ def run(ctx):
         a = core.rand_assignment(ver, rng, p_absent=rng.choice([0.2, 0.5, 0.9]), p_nd=rng.choice([0.1, 0.3]))
         pfx = rng.choice(core.PREFIX[ver])
         cases.append((ver, pfx, a, core.render(ver, a, rng, prefix=pfx)))
+    for ver in "23":
+        for s in core.singletons(ver, rng, ctx.n(40, 700)):
+            pfx, fields = obs.parse_fields(ver, s)
+            cases.append((ver, pfx, dict(fields), s))
     ctx.count(len(cases))
     ctx.sample({"vector": cases[0][3]})
     for ver in "23":
